@@ -140,15 +140,16 @@ type TemplateProgram struct {
 	ParentKey       string // "parent" (composite) or "object" (decorator)
 	ChildrenKey     string // "children" or "attachments"
 	Kinds           []*Resource
-	Ordered         bool // child i is desired only once child i-1 was observed
-	NeedReady       bool // ... and observed Ready
-	Derived         bool // second kind: one per observed child of the first kind
-	SetNamespace    bool // set metadata.namespace on namespaced children (always done for cluster parents)
-	NoLabels        bool // do not put the selector labels on children (generateSelector adds controller-uid)
-	BadLabel        bool // put labels that do not satisfy the selector
-	OwnUpdated      bool // return an own status.conditions[Updated]
-	NilStatus       bool // return no status at all
-	Related         bool // one extra child per related ConfigMap
+	Ordered         bool   // child i is desired only once child i-1 was observed
+	NeedReady       bool   // ... and observed Ready
+	Derived         bool   // second kind: one per observed child of the first kind
+	SetNamespace    bool   // set metadata.namespace on namespaced children (always done for cluster parents)
+	NoLabels        bool   // do not put the selector labels on children (generateSelector adds controller-uid)
+	BadLabel        bool   // put labels that do not satisfy the selector
+	OwnUpdated      bool   // return an own status.conditions[Updated]
+	OwnUpdatedAs    string // its status: "" = Unknown, "True", "False", or "echo" (whatever the parent's status carries)
+	NilStatus       bool   // return no status at all
+	Related         bool   // one extra child per related ConfigMap
 	ResyncAfter     float64
 	Teardown        bool // finalize: drop one observed child per call instead of all at once
 	WithStatus      bool // desired children carry a status stanza (which metacontroller must ignore)
@@ -157,6 +158,7 @@ type TemplateProgram struct {
 	Descending      bool // list the children of the first kind from the highest ordinal down (StatefulSet-like)
 	EchoAnnotations bool // desired children carry the annotations of the observed child of the same name (a hook that preserves what others annotated)
 	FinalizeAtOnce  bool // finalize: answer finalized:true with no children straight away, whatever is observed
+	SameNames       bool // cluster-scoped parent: children in different namespaces share a name (p0-0 in ns1 and in ns2)
 	FinalizeHold    bool // finalize: while spec.template.hold is true keep the children and answer finalized:false;
 	// otherwise keep the children and answer finalized:true at once (legal: leftovers go to the GC)
 }
@@ -252,6 +254,16 @@ func (tp *TemplateProgram) childNS(parent Object, r *Resource, idx int) string {
 	return tns[idx%len(tns)]
 }
 
+// childName is the name of child idx ("-b" marks the second kind).
+func (tp *TemplateProgram) childName(parent Object, r *Resource, mark string, idx int) string {
+	if tp.SameNames && r.Namespaced && mstr(parent, "namespace") == "" {
+		if tns := strList(getPath(parent, "spec", "targetNamespaces")); len(tns) > 1 {
+			idx /= len(tns)
+		}
+	}
+	return fmt.Sprintf("%s-%s%d", mstr(parent, "name"), mark, idx)
+}
+
 // Desired computes the desired children for a request.
 func (tp *TemplateProgram) Desired(req Object) []Object {
 	parent := tp.parentOf(req)
@@ -264,14 +276,14 @@ func (tp *TemplateProgram) Desired(req Object) []Object {
 	k0 := tp.Kinds[0]
 	obs0 := observedOf(req, tp.ChildrenKey, k0)
 	for i := 0; i < n; i++ {
-		name := fmt.Sprintf("%s-%d", mstr(parent, "name"), i)
+		name := tp.childName(parent, k0, "", i)
 		ns := tp.childNS(parent, k0, i)
 		if tp.Ordered && i > 0 {
 			prevNS := tp.childNS(parent, k0, i-1)
 			if prevNS == "" && k0.Namespaced {
 				prevNS = pns
 			}
-			prev, ok := obs0[innerKey(pns, prevNS, fmt.Sprintf("%s-%d", mstr(parent, "name"), i-1))]
+			prev, ok := obs0[innerKey(pns, prevNS, tp.childName(parent, k0, "", i-1))]
 			if !ok || (tp.NeedReady && !isReady(prev)) {
 				break
 			}
@@ -317,7 +329,7 @@ func (tp *TemplateProgram) Desired(req Object) []Object {
 			}
 		} else {
 			for i := 0; i < n; i++ {
-				out = append(out, tp.desiredChild(parent, k1, fmt.Sprintf("%s-b%d", mstr(parent, "name"), i), tp.childNS(parent, k1, i), i))
+				out = append(out, tp.desiredChild(parent, k1, tp.childName(parent, k1, "b", i), tp.childNS(parent, k1, i), i))
 			}
 		}
 	}
@@ -349,7 +361,18 @@ func (tp *TemplateProgram) status(req Object) Object {
 		st["names"+k.Kind] = strings.Join(sortedKeys(obs), ",")
 	}
 	if tp.OwnUpdated {
-		st["conditions"] = []interface{}{Object{"type": "Updated", "status": "Unknown", "reason": "HookSaysSo"}}
+		c := Object{"type": "Updated", "status": "Unknown", "reason": "HookSaysSo"}
+		switch tp.OwnUpdatedAs {
+		case "True", "False":
+			c["status"] = tp.OwnUpdatedAs
+		case "echo":
+			for _, oc := range getList(tp.parentOf(req), "status", "conditions") {
+				if getStr(oc, "type") == "Updated" {
+					c = deepCopyAny(oc).(map[string]interface{})
+				}
+			}
+		}
+		st["conditions"] = []interface{}{c}
 	}
 	return st
 }
